@@ -5,6 +5,8 @@ import Driver.Xbin
 import Driver.Errs
 import Driver.OMap
 import Driver.Lru
+import Driver.Blk
+import Driver.Tmo
 
 def main (args : List String) : IO UInt32 := do
   match args with
@@ -14,4 +16,6 @@ def main (args : List String) : IO UInt32 := do
   | ["errs"] => Drv.run DrvErrs.comp
   | ["omap"] => Drv.run DrvOMap.comp
   | ["lru"] => Drv.run DrvLru.comp
+  | ["blk"] => Drv.run DrvBlk.comp
+  | ["tmo"] => Drv.run DrvTmo.comp
   | _ => IO.eprintln "usage: driver <component>"; return 2
